@@ -65,7 +65,7 @@ pub fn exec(op: &str, a: &[Vec<u8>]) -> Out {
             // [kind, secret bytes, peer public bytes] -> public || shared || contributory || secret bytes as stored
             let k = need!(b32(&a[1]));
             let peer = PublicKey::from(need!(b32(&a[2])));
-            let (public, shared, stored): (PublicKey, SharedSecret, [u8; 32]) = match a[0][0] % 3 {
+            let (public, shared, stored): (PublicKey, SharedSecret, [u8; 32]) = match a[0][0] % 4 {
                 0 => {
                     let s = EphemeralSecret::random_from_rng(ByteRng::new(&k));
                     let p = PublicKey::from(&s);
@@ -82,12 +82,42 @@ pub fn exec(op: &str, a: &[Vec<u8>]) -> Out {
                     }
                     (p, sh, k)
                 }
-                _ => {
+                2 => {
                     let s = StaticSecret::from(k);
                     let p = PublicKey::from(&s);
                     (p, s.diffie_hellman(&peer), s.to_bytes())
                 }
+                _ => {
+                    let s = StaticSecret::random_from_rng(ByteRng::new(&k));
+                    let s2 = s.clone();
+                    let p = PublicKey::from(&s);
+                    // accessor forms of the secret must agree
+                    if s.as_bytes() != &s.to_bytes() || <StaticSecret as AsRef<[u8]>>::as_ref(&s) != &k[..] || s2.to_bytes() != k {
+                        return Out::Ok(b"StaticSecret accessors disagree".to_vec());
+                    }
+                    (p, s.diffie_hellman(&peer), s.to_bytes())
+                }
             };
+            // accessor / comparison forms of the public types
+            {
+                use std::hash::{Hash, Hasher};
+                let hh = |p: &PublicKey| {
+                    let mut s = std::collections::hash_map::DefaultHasher::new();
+                    p.hash(&mut s);
+                    s.finish()
+                };
+                let again = PublicKey::from(public.to_bytes());
+                let mut flipped = public.to_bytes();
+                flipped[0] ^= 1;
+                let ok = <PublicKey as AsRef<[u8]>>::as_ref(&public) == &public.as_bytes()[..]
+                    && <SharedSecret as AsRef<[u8]>>::as_ref(&shared) == &shared.as_bytes()[..]
+                    && public == again
+                    && hh(&public) == hh(&again)
+                    && public != PublicKey::from(flipped);
+                if !ok {
+                    return Out::Ok(b"PublicKey / SharedSecret accessors or comparisons disagree".to_vec());
+                }
+            }
             let mut o = public.as_bytes().to_vec();
             o.extend_from_slice(shared.as_bytes());
             o.push(shared.was_contributory() as u8);
